@@ -383,8 +383,13 @@ impl FixtureDatabase {
                             }
 
                             // Queue it even when it is cached already (a notification may
-                            // have analysed it meanwhile): its own imports still need following
-                            if !processed_files.contains(&canonical) {
+                            // have analysed it meanwhile): its own imports still need following.
+                            // And queue it when its imports were read already but nothing is
+                            // indexed for it: an open document whose buffer does not parse is
+                            // in the work list by its cached text, not because it was analysed.
+                            if !processed_files.contains(&canonical)
+                                || !self.is_indexed(&canonical)
+                            {
                                 new_modules.insert(canonical);
                             }
                         }
@@ -416,8 +421,13 @@ impl FixtureDatabase {
                             }
 
                             // Queue it even when it is cached already (a notification may
-                            // have analysed it meanwhile): its own imports still need following
-                            if !processed_files.contains(&canonical) {
+                            // have analysed it meanwhile): its own imports still need following.
+                            // And queue it when its imports were read already but nothing is
+                            // indexed for it: an open document whose buffer does not parse is
+                            // in the work list by its cached text, not because it was analysed.
+                            if !processed_files.contains(&canonical)
+                                || !self.is_indexed(&canonical)
+                            {
                                 new_modules.insert(canonical);
                             }
                         }
